@@ -110,6 +110,14 @@ func historyCase(t *testing.T, r *evid.Run, idx int, tmp string) {
 	set := func(nme string) {
 		ver[nme]++
 		v := []byte(fmt.Sprintf("%s#%d#%x", nme, ver[nme], rng.Uint64()))
+		switch rng.IntN(8) {
+		case 0:
+			v = append(append([]byte("\n\t "), v...), " \r\n"...) // text with whitespace at both ends (a PEM block, say)
+		case 1:
+			v = append([]byte{0x09}, append(v, 0x0a)...)
+		case 2:
+			v = []byte(" \n") // nothing but whitespace is a value too
+		}
 		if nme == "x/empty" || rng.IntN(12) == 0 {
 			v = []byte{}
 		}
